@@ -50,6 +50,7 @@ CVq == {<<Z0>>, <<IntTok(1)>>, <<IntTok(2)>>, <<H>>, <<T>>, <<JunkTok>>, <<RatTo
 CVt == CVq \cup {<<IntTok(-1)>>, <<IntTok(3)>>, <<IntTokNC(0)>>, <<RatTok(1, 0)>>, <<T, H>>, <<IntTok(1), IntTok(1)>>, <<IntTok(1), T>>, <<H, IntTok(1)>>,
                  <<T, Z0>>, <<H, H>>, <<IntTok(2), T>>, <<Z0, Z0>>, <<H, IntTok(2)>>, <<Z0, JunkTok>>, <<H, T, Z0>>}
 CVfew == {<<Z0>>, <<H>>, <<JunkTok>>}
+CVmid == CVfew \cup {<<IntTok(1)>>, <<H, T>>, <<RatTok(1, 2)>>}
 CValues == IF Wide THEN CVt ELSE CVq
 
 \* (the class of every input is computed once)
@@ -58,26 +59,33 @@ MPoint(cmd, ct, cv, m, r, fl, x) ==
     [cmd |-> cmd, ctype |-> ct, cv |-> cv, mirror |-> m, reduced |-> r, fl |-> fl, ic |-> ClassTab[x], inp |-> x]
 \* (a union of two big sets is quadratic in TLC: the union is taken on the small index sets)
 Combos == ({"F2"} \X CValues \X (IF Wide THEN Inputs ELSE QuickInputs))
-          \cup ((ICTypes \ {"F2"}) \X (IF Wide THEN CValues ELSE CVfew) \X (IF Wide THEN Inputs ELSE FewInputs))
+          \cup ((ICTypes \ {"F2"}) \X (IF Wide THEN CVmid ELSE CVfew) \X (IF Wide THEN QuickInputs ELSE FewInputs))
 Points == {MPoint(cmd, c[1], c[2], m, r, fl, c[3]) : cmd \in ICmds, c \in Combos, m \in BOOLEAN, r \in BOOLEAN, fl \in Flags}
 
 Pairs == {<<a, b>> : a, b \in {-2, 0, 2}}
 IsSsiPoint(p) == p.fl.s /\ p.ic = "sinv" /\ IOutcomeAt(p).class # "Error"
 KeyOf(p)      == <<p.inp.name, RingOf(p.ctype, p.cv).vars, p.reduced>>
 
+\* one initial state per (command, -m, -r): TLC's workers share the product (all successors of one state are computed by one worker)
+VARIABLE bk
+mcvars == <<inv, obs, fail, ss, bk>>
+Buckets == ICmds \X BOOLEAN \X BOOLEAN
+MCInit == IInit /\ bk \in Buckets
+PointsB == {MPoint(bk[1], c[1], c[2], bk[2], bk[3], fl, c[3]) : c \in Combos, fl \in Flags}
+
 \* first invocation
-DoIErr      == inv = NoInv /\ \E p \in Points, ob \in IObservables : IInvokeErr(p, ob)
-DoITable    == inv = NoInv /\ \E p \in Points, ob \in IObservables :
+DoIErr      == inv = NoInv /\ UNCHANGED bk /\ \E p \in PointsB, ob \in IObservables : IInvokeErr(p, ob)
+DoITable    == inv = NoInv /\ UNCHANGED bk /\ \E p \in PointsB, ob \in IObservables :
                   /\ IInvokeTable(p, ob)
                   /\ IF IsSsiPoint(p) THEN \E pr \in Pairs : SsiObserve(p.inp.name, KeyOf(p)[2], p.reduced, p.mirror, pr) ELSE UNCHANGED ss
-DoIInternal == inv = NoInv /\ \E p \in Points, ob \in IObservables : IInvokeInternal(p, ob)
+DoIInternal == inv = NoInv /\ UNCHANGED bk /\ \E p \in PointsB, ob \in IObservables : IInvokeInternal(p, ob)
 \* second invocation: the same command line with -m toggled; only a pair that obeys the mirror relation is a step
-DoIMirrorRun == /\ inv # NoInv /\ ~fail /\ IsSsiPoint(inv) /\ Cardinality(DOMAIN ss) = 1
+DoIMirrorRun == /\ inv # NoInv /\ ~fail /\ IsSsiPoint(inv) /\ Cardinality(DOMAIN ss) = 1 /\ UNCHANGED bk
                 /\ \E pr \in Pairs, ob \in IObservables :
                       /\ IInvokeTable([inv EXCEPT !.mirror = ~inv.mirror], ob)
                       /\ SsiObserve(inv.inp.name, KeyOf(inv)[2], inv.reduced, ~inv.mirror, pr)
 Next == DoIErr \/ DoITable \/ DoIInternal \/ DoIMirrorRun
-Spec == IInit /\ [][Next]_ivars
+Spec == MCInit /\ [][Next]_mcvars
 
 IOutcomeTotal == inv # NoInv => /\ IOutcomeAt(inv).class \in IClasses /\ IOutcomeAt(inv).why \in IWhys
                                 /\ (IOutcomeAt(inv).class = "Error" <=> IOutcomeAt(inv).why # "-")
